@@ -49,7 +49,9 @@ func (b *recBackoff) NextBackOff() time.Duration {
 		// a user-supplied backoff may take its time (simulated time here); the
 		// container is free to call it with its lock held
 		b.w.c.S.Count("probe:backoff-slow")
+		b.w.boSleeping++
 		stime.Sleep([]time.Duration{time.Millisecond, 20 * time.Millisecond}[b.w.c.S.Plan(2)])
+		b.w.boSleeping--
 	}
 	if b.w.needReset {
 		b.w.c.Fail("C14.M3.backoff-not-reset", "NextBackOff was called after a successful exit without Reset in between")
@@ -90,12 +92,14 @@ type watch struct {
 // callRec is the interval of one driver call that may legitimately (re)start the routine.
 type callRec struct {
 	inv, ret int
-	kind     int // 0: RestartRoutine / new routine / new state; 1: SetContext(restart=true)
+	kind     int // 0: RestartRoutine / new routine / new state / SetContext(non-nil); 2: ClearContext
 }
 
 type world struct {
 	hasObserver bool
 	causes      []*callRec
+	cbChecked   map[*inst]bool
+	boSleeping  int // NextBackOff calls that are taking simulated time (an exit is being recorded)
 	c           *core.Ctx
 	state       bool // StateRoutineContainer
 	rc          *routine.RoutineContainer
@@ -363,7 +367,7 @@ func (w *world) ctxStep(i int) {
 		case 4, 5:
 			c.Descf("ctx-driver: ClearContext")
 			inv := c.Tick()
-			w.clearContext()
+			w.cause(2, func() { w.clearContext() })
 			w.ctxTag = 0
 			w.checkCancelledBefore(inv, "ClearContext", func(in *inst) bool { return true })
 		case 6, 7:
@@ -509,6 +513,36 @@ func (w *world) checkQuiescentConcurrent() {
 	c.S.TimerEarlyPermille = 0
 	defer func() { c.S.TimerEarlyPermille = saved }()
 	c.Sub()
+	// C14 (exit callbacks) under concurrency: an instance that returned its own
+	// error with a live context, with no driver call in flight or invoked since,
+	// exited as the current instance: by now every exit callback has seen it once
+	if w.cbChecked == nil {
+		w.cbChecked = map[*inst]bool{}
+	}
+	now := c.Tick()
+	for _, in := range w.insts {
+		if in.returned == 0 || w.cbChecked[in] || w.boSleeping > 0 {
+			continue
+		}
+		w.cbChecked[in] = true
+		if !in.liveExit || in.err == nil || in.err == context.Canceled || in.err == context.DeadlineExceeded {
+			continue
+		}
+		if w.causeBetween(in.returned, now, 2) {
+			continue
+		}
+		c.S.Count("probe:current-exit-concurrent")
+		seen := make([]int, w.ncb)
+		for _, idx := range w.cbCalls[in.err] {
+			seen[idx]++
+		}
+		for i, n := range seen {
+			if n != 1 {
+				c.Fail("C14.M5.exit-callback", "instance %d returned %v as the current instance (no driver call since), but exit callback %d saw that exit %d times", in.n, in.err, i, n)
+				return
+			}
+		}
+	}
 	var live []*inst
 	for _, in := range w.insts {
 		if in.returned == 0 && in.ctx.Err() == nil {
@@ -574,6 +608,17 @@ func newWorld(c *core.Ctx, single bool) *world {
 				w.nilCbCalls = append(w.nilCbCalls, idx)
 			} else {
 				w.cbCalls[err] = append(w.cbCalls[err], idx)
+				if !w.single && err != context.Canceled && err != context.DeadlineExceeded {
+					n := 0
+					for _, j := range w.cbCalls[err] {
+						if j == idx {
+							n++
+						}
+					}
+					if n > 1 {
+						c.Fail("C14.M5.exit-callback", "the exit with error %v was reported %d times to exit callback %d", err, n, idx)
+					}
+				}
 			}
 		}))
 	}
@@ -652,7 +697,7 @@ func runConcurrent(c *core.Ctx) {
 		return
 	}
 	// final drain: clear the context; afterwards no instance may be live and every instance returns
-	w.clearContext()
+	w.cause(2, func() { w.clearContext() })
 	w.ctxTag = 0
 	for i := 0; i < 80; i++ {
 		c.S.Quiesce()
